@@ -63,6 +63,10 @@ Readings of the English (weaker reading taken where ambiguous)
     after the node was added is not "registered" until the node is added again.
   * "visible from that graph": for a subgraph of node n of graph p: p's inputs, initializers and the outputs of
     the nodes of p that precede n, recursively upwards.
+    A value defined by a LATER node of an enclosing graph is not visible from an earlier node's subgraph (ONNX lexical
+    scoping as enforced by onnx.checker; onnxruntime runs such models): an unnamed value in an If branch and an unnamed
+    output of a later outer node both get `v` - not a collision under this reading; under the stronger reading the
+    statement is false (C15_fix_post_later_outer_refuted, corpus b-later-outer-unsuffixed.json, reported 2026-09-26).
   * "names that were already unique are kept": a non-empty name carried by exactly one value (resp. node) in
     the whole model (main graph, subgraphs and functions together) is still that object's name afterwards.
   * "nothing but names has changed": structure, types, shapes, tensor objects and the *set* of initializers of
